@@ -14,7 +14,7 @@ ENGINE_SWITCHES = {
     "native": ["NATIVE_ARGS_RTL", "NATIVE_FOR_IN_ARRAY_SKIPPED", "DIV_MIN_NEG1_TRAPS", "NATIVE_VAR_OPERAND_READ_LATE",
                "NATIVE_BREAK_IN_MATCH"],
     "interp": ["INTERP_DYNAMIC_SCOPE", "INTERP_RETURN_IN_MATCH_ARM", "NATIVE_FOR_IN_ARRAY_SKIPPED", "INTERP_NO_BLOCK_SCOPE",
-               "INTERP_ARRAY_LIT_FIRST_TWICE"],
+               "INTERP_ARRAY_LIT_FIRST_TWICE", "INTERP_STATIC_ARRAYS"],
 }
 
 
